@@ -58,13 +58,13 @@ func ruleS6(p *Prog, r *Report) {
 			continue
 		}
 		eachInstrDeep(top, func(fn *ssa.Function, in ssa.Instruction) {
-			c, _, ok := p.baseWrite(in)
+			_, key, _, ok := p.registerWrite(in)
 			if !ok {
 				return
 			}
 			nApply++
 			cons := "apply-order:" + p.Name(fn)
-			id := canon(c.Common().Args[0])
+			id := canon(key)
 			ld, ok := id.(*ssa.UnOp)
 			var ia *ssa.IndexAddr
 			if ok && ld.Op == token.MUL {
